@@ -102,6 +102,18 @@ func (x *Unit) run() {
 	for i := 0; i < x.sig.Params().Len(); i++ {
 		bindParam(x.sig.Params().At(i), false)
 	}
+	// parameters renamed since the contracts were written keep their old entry-value names (lib/names.json)
+	if _, key := x.enclosingDecl(); key != "" && x.lit == nil {
+		if bn, ok := x.eng.baseNames[key]; ok {
+			for i, n := range bn.Params {
+				if i < x.sig.Params().Len() && n != "" && n != "_" && x.sig.Params().At(i).Name() != n {
+					if _, taken := x.unitNames[n+"0"]; !taken {
+						x.unitNames[n+"0"] = x.entry.env[x.sig.Params().At(i)]
+					}
+				}
+			}
+		}
+	}
 	// results
 	for i := 0; i < x.sig.Results().Len(); i++ {
 		r := x.sig.Results().At(i)
@@ -260,6 +272,33 @@ func (x *Unit) contractCtx(st *State, fr *frame) *specCtx {
 			c.pos = x.lit.Body.Rbrace
 		} else {
 			c.pos = x.decl.Body.Rbrace
+		}
+	}
+	// names the contract uses for parameters and named results that have been renamed since (lib/names.json)
+	if _, key := x.enclosingDecl(); key != "" && x.lit == nil {
+		if bn, ok := x.eng.baseNames[key]; ok {
+			for i, n := range bn.Params {
+				if i < x.sig.Params().Len() && n != "" && n != "_" {
+					if cur := x.sig.Params().At(i).Name(); cur != n {
+						if v, has := c.names[cur]; has {
+							if _, taken := c.names[n]; !taken {
+								c.names[n] = v
+							}
+						}
+					}
+				}
+			}
+			if fr != nil {
+				for i, n := range bn.Results {
+					if i < x.sig.Results().Len() && n != "" && n != "_" {
+						if v, has := c.names[fmt.Sprintf("result%d", i)]; has {
+							if _, taken := c.names[n]; !taken {
+								c.names[n] = v
+							}
+						}
+					}
+				}
+			}
 		}
 	}
 	return c
